@@ -91,6 +91,7 @@ def plan(tier):
     units += [('triples', lo, lo + 2) for lo in range(0, 128, 2)]
     units += [('cold', k, 16) for k in range(16)]
     units.append(('families',))
+    units += [('expressions', k, 8) for k in range(8)]
     return units
 
 
@@ -207,6 +208,48 @@ def run(unit):
             exp = frozenset().union(*fam)
             if got != exp:
                 r.violation('union of a long family is not the least upper bound', {'op': 'union', 'sets': [_w(x) for x in fam]}, f'chain of {len(fam)}: got {got}', size=len(fam))
+        r.count('states', r.counters['evaluations'])
+    elif kind == 'expressions':
+        # the same law one level up: narrowing the stored type set of an AST node (HplExpression.cast) by every
+        # type set - every type set a node of that kind can carry (reached by a first narrowing) x all 128 targets
+        import hpl.ast as A
+
+        _, k, shards = unit
+        makers = {'field': lambda: A.HplFieldAccess(A.HplThisMessage(), 'fld'), 'variable': lambda: A.HplVarReference('@v'), 'index': lambda: A.HplArrayAccess(A.HplFieldAccess(A.HplThisMessage(), 'xs'), A.HplLiteral('0', 0))}
+        n = 0
+        for mname, mk in makers.items():
+            default = to_model(mk().data_type)
+            for i in range(1, 128):
+                a = M[i]
+                if not a <= default:
+                    continue
+                n += 1
+                if n % shards != k:
+                    continue
+                try:
+                    node = mk().cast(I[i])
+                except Exception as e:  # noqa: BLE001
+                    r.violation('expression-level narrowing to a subset of the stored type set failed', {'op': 'expr-cast', 'node': mname, 'a': _w(a)}, f'{mname}.cast({_w(a)}) raised {type(e).__name__}', size=len(a))
+                    continue
+                if to_model(node.data_type) != a:
+                    r.violation('expression-level narrowing is not the intersection', {'op': 'expr-cast', 'node': mname, 'a': _w(default), 'b': _w(a)}, f'{mname}.cast({_w(a)}).data_type = {_w(to_model(node.data_type))}', size=len(a))
+                    continue
+                for j in range(128):
+                    b = M[j]
+                    r.count('evaluations')
+                    r.count('transitions')
+                    try:
+                        got = ('ok', to_model(node.cast(I[j]).data_type))
+                    except TypeError:
+                        got = ('TypeError',)
+                    except Exception as e:  # noqa: BLE001
+                        got = ('raised ' + type(e).__name__,)
+                    exp = ('ok', a & b) if a & b else ('TypeError',)
+                    if got != exp:
+                        r.violation('expression-level narrowing is not the intersection', {'op': 'expr-cast', 'node': mname, 'a': _w(a), 'b': _w(b)}, f'a {mname} typed {_w(a)} cast to {_w(b)}: expected {exp}, got {got}', size=len(a) + len(b))
+                    if to_model(node.data_type) != a:
+                        r.violation('expression-level narrowing changed the node it was applied to', {'op': 'expr-cast', 'node': mname, 'a': _w(a), 'b': _w(b)}, f'{mname} typed {_w(a)} is typed {_w(to_model(node.data_type))} after cast({_w(b)})', size=len(a) + len(b))
+                        break
         r.count('states', r.counters['evaluations'])
     elif kind == 'cold':
         # one fresh interpreter per pair: nothing is materialised before the call under test
@@ -335,6 +378,9 @@ def replay(w):
         got = getattr(to_impl(a), op)
         if got is not (CAN_BE_PROPS[op] in a):
             out.append({'sig': op + ' wrong', 'detail': f'got {got!r}'})
+    elif op == 'expr-cast':
+        rr = run(('expressions', 0, 1))
+        out = [{'sig': v['sig'], 'detail': v['detail']} for v in rr.violations]
     elif op == 'cold':
         rr = run(('cold', 0, 1))
         out = [{'sig': v['sig'], 'detail': v['detail']} for v in rr.violations]
@@ -363,6 +409,7 @@ def describe(tier):
         'rule': 'all 128 type sets; every ordered pair (cast, can_be, union); the seven can_be_* and derived members'
         + '; every triple for associativity / union of three; 24 x 24 pairs of named members, complements and unions each cast in a fresh interpreter (nothing materialised beforehand); long families (all non-empty subsets of every 2-4 base types, chains) for union'
         + '; union over 12 container kinds (list, tuple, iterator, generator, set, frozenset, dict, dict views, deque, reversed, map) x 128 sets x 4 family shapes'
+        + '; HplExpression.cast on field / variable / index nodes carrying every type set such a node can carry x all 128 targets'
         + '. A state is one tuple of type sets; a transition one call of the real DataType API; non-trivial = every tuple (all are distinct).',
         'bounds': {'type_sets': 128, 'tuple_arity': 3},
         'exhaustive': True,
